@@ -169,6 +169,11 @@ pub fn gen_program(rng: &mut Rng, opts: &GenOpts) -> Program {
             entries.push(Entry { stage: st, func, threads });
             stages.push(k);
         }
+        // a Pipeline block may list its stage properties in any order (the compiler reports stages in declaration
+        // order and emits Metal entry points in its own canonical order): list them reversed now and then
+        if stages.len() == 2 && rng.chance(1, 3) {
+            stages.reverse();
+        }
         pipes.push(Pipe {
             name: format!("P{}", i),
             kind,
